@@ -180,7 +180,7 @@ def replay_record(ctx, table, rec):
 
 
 # ------------------------------------------------------------------ direction B
-TRACE_EVS = {"init", "rec", "recn", "flush", "flushfail", "autoflushfail", "autoflush", "rotate", "clear", "conf", "restart", "search"}
+TRACE_EVS = {"init", "rec", "recn", "flush", "flushfail", "autoflushfail", "stall", "autoflush", "rotate", "clear", "conf", "restart", "search"}
 
 
 def run_history(ctx, hist, nrec, mem=None, big=False):
